@@ -3,7 +3,7 @@ transport send error always leaves the send handler as an error (so the task shu
 import re
 import z3
 from .. import run as R, models as M, mapmodels as MM, prov as P, clienttable as T, listmodels as LM, seqmodels as SQ
-from ..sym import Ctx, Executor, Node, Ptr, Opaque, OBJ, to_term
+from ..sym import Ctx, Executor, Node, Ptr, Opaque, OBJ, to_term, Fork
 
 VALIDATION = {}
 
@@ -35,9 +35,45 @@ def _recv_array(core, k):
         return ex.mk_variant("Result", 0, "Ok", LM.new_list(ex, elems, name="raw_responses"))
 
     def m_find(ex, st, callee, args, dty, site):
-        byte = Node(ex.ctx.fresh_name("first_byte"), "u8")
-        byte.val = z3.BitVec("first_byte", 8)
-        return ex.mk_variant("Option", 1, "Some", Ptr(byte))
+        """first non-whitespace byte of the frame: any byte, or none at all (empty / all-whitespace frame)"""
+        some = z3.Bool("frame.has_non_whitespace")
+
+        def sm(ex_, st_, tr):
+            byte = Node(ex_.ctx.fresh_name("first_byte"), "u8")
+            byte.val = z3.BitVec("first_byte", 8)
+            return ex_.mk_variant("Option", 1, "Some", Ptr(byte))
+        return Fork([(some, sm), (z3.Not(some), lambda ex_, st_, tr: ex_.mk_variant("Option", 0, "None"))])
+
+    def _slice(ex, v):
+        n = v.node if isinstance(v, Ptr) else (ex.pointee(v) if isinstance(v, Node) and v.val is None and not v.kids else (v.val.node if isinstance(v, Node) and isinstance(v.val, Ptr) else v))
+        return n if isinstance(n, Node) else None
+
+    def m_position(ex, st, callee, args, dty, site):
+        """Iterator::position over the frame's bytes: Some(i) with i < len, or None"""
+        it = args[0].node if isinstance(args[0], Ptr) else args[0]
+        sl = _slice(ex, ex.read_node(it) if isinstance(it, Node) else it)
+        if sl is None:
+            return NotImplemented
+        ln = ex.read_node(ex.child(sl, "len", "usize"))
+        some = z3.Bool("frame.has_non_whitespace")
+        i = z3.BitVec("frame.first_non_whitespace_at", 64)
+
+        def sm(ex_, st_, tr):
+            st_["pc"].append(z3.ULT(i, ln))
+            return ex_.mk_variant("Option", 1, "Some", i)
+        return Fork([(some, sm), (z3.Not(some), lambda ex_, st_, tr: ex_.mk_variant("Option", 0, "None"))])
+
+    def m_index_from(ex, st, callee, args, dty, site):
+        """&slice[a..]: panics when a > len; the rest has len - a bytes"""
+        sl = _slice(ex, args[0])
+        rng = MM.value_of(ex, args[1])
+        a = ex.read_node(rng.kids[0]) if isinstance(rng, Node) and 0 in rng.kids else None
+        if sl is None or a is None:
+            return NotImplemented
+        ln = ex.read_node(ex.child(sl, "len", "usize"))
+        rest = Node(ex.ctx.fresh_name("frame_rest"), "[u8]")
+        ex.child(rest, "len", "usize").val = ln - a
+        return ("panic", z3.UGT(a, ln), Ptr(rest))
 
     def m_rawget(ex, st, callee, args, dty, site):
         return Opaque(z3.Const("text:" + str(to_term(args[0])), OBJ))
@@ -60,6 +96,8 @@ def _recv_array(core, k):
         return r
 
     extra = [(r"^from_slice::<'_, Vec<&RawValue>>$", m_from_slice_vec), (r"^<std::slice::Iter<'_, u8> as Iterator>::find::<", m_find), (r"^RawValue::get$", m_rawget),
+             (r"^<std::slice::Iter<'_, u8> as Iterator>::position::<", m_position), (r"^core::slice::<impl \[u8\]>::iter$", M.m_identity),
+             (r"^<\[u8\] as (std::ops::)?Index<(std::ops::)?RangeFrom<usize>>>::index$", m_index_from),
              (r"^(serde_json::)?from_(str|slice)::<'_, jsonrpsee_types::Response<'_, Box<RawValue>>>$", m_parse_response),
              (r"^jsonrpsee_types::Response::<.*>::into_owned$", M.m_identity), (r"^std::option::Option::<std::ops::Range<u64>>::get_or_insert$", m_get_or_insert)]
     ctx = P.make_ctx(core, extra_models=extra + PANIC_MODELS + T.CLIENT_MODELS + LM.LIST_MODELS + list(M.TRACING_MODELS), max_paths=30000, max_visits=k + 2)
@@ -120,6 +158,88 @@ def _send_errors(core):
     return b, ctx, viol, reach, sorted(sites)
 
 
+def _read_error(core):
+    """ErrorFromBack::read_error: once the background has gone, every reader gets RestartNeeded(the stored cause) - reading does not consume the cause"""
+    b = R.find_body(core, r"^fn async_client::<impl at core/src/client/async_client/mod\.rs:[\d: ]+>::read_error::\{closure#0\}\(_1: Pin<&mut \{async fn body of ErrorFromBack::read_error\(\)\}>")
+    cap = P.capture_index(b, "self")
+    fi_reason = R.field_index("ErrorFromBack", "disconnect_reason")
+    stored = z3.Bool("cause.stored")
+
+    def m_lock(ex, st, callee, args, dty, site):
+        g = Node(ex.ctx.fresh_name("guard"), "Guard")
+        g.val = args[0] if isinstance(args[0], Ptr) else Ptr(MM.value_of(ex, args[0]))
+        return ex.mk_variant("Result", 0, "Ok", g)
+
+    def m_guard_deref(ex, st, callee, args, dty, site):
+        g = args[0].node if isinstance(args[0], Ptr) else args[0]
+        return ex.read_node(g)
+
+    def m_poll_closed(ex, st, callee, args, dty, site):
+        return ex.mk_variant("Poll", 0, "Ready", MM.UNIT)
+    models = [(r"^std::sync::(RwLock|Mutex)::<.*>::(read|write|lock)$", m_lock), (r"^<std::sync::(RwLockReadGuard|RwLockWriteGuard|MutexGuard)<.*> as Deref(Mut)?>::deref(_mut)?$", m_guard_deref),
+              (r"closed\(\)\} as (futures_util::|std::future::)?Future>::poll$", m_poll_closed)] + MM.ARC_MODELS + list(SQ.TRY_MODELS) + list(M.TRACING_MODELS)
+    ctx = P.make_ctx(core, extra_models=models)
+    ctx.inline = []
+    ex = Executor(ctx)
+    viol, reach = [], {"with-cause": [], "without": []}
+    bad = []
+    for has in (True, False):
+        opt = MM.option(ex, has, Opaque(z3.Const("the_disconnect_cause", OBJ)))
+        arc = MM.new_arc(ex, opt)
+        me = Node("error_from_back", "ErrorFromBack")
+        k = Node(f"error_from_back.{fi_reason}", None)
+        ex.write(k, arc)
+        me.kids[fi_reason] = k
+        state = Node(ex.ctx.fresh_name("coroutine"), None)
+        d = Node(state.name + ".discr", "isize")
+        d.val = z3.BitVecVal(0, 64)
+        state.kids["discr"] = d
+        up = Node(f"{state.name}.{cap}", None)
+        up.val = Ptr(me)
+        state.kids[cap] = up
+        pin = Node(ex.ctx.fresh_name("pin"), "Pin")
+        p0 = Node(pin.name + ".0", None)
+        p0.val = Ptr(state)
+        pin.kids[0] = p0
+        for p in ex.run(b, args=[pin, Opaque(z3.Const("cx", OBJ))], extra_roots=[me]):
+            if p.kind != "return":
+                bad.append((p.kind, p.detail))
+                continue
+            me2 = p.frame["mem"][("extra", 0)]
+            a2 = MM.arc_node(ex, ex.read_node(me2.kids[fi_reason]))
+            after = a2.kids["ptr"].val.node.kids["v"] if a2 is not None else None
+            ad = z3.simplify(ex.discr_of(after)) if isinstance(after, Node) else None
+            still = ad is not None and z3.is_bv_value(ad) and ad.as_long() == 1
+            ret = ex.read_node(p.ret.kids[("Ready", 0)]) if isinstance(p.ret, Node) and ("Ready", 0) in p.ret.kids else None
+            txt = _deep_text(ex, ret)
+            if has:
+                reach["with-cause"].append(p.cond())
+                if not still or "the_disconnect_cause" not in txt or "RestartNeeded" not in _variant_name(ex, ret):
+                    viol.append(p.cond())
+            else:
+                reach["without"].append(p.cond())
+    return b, viol, reach, bad
+
+
+def _variant_name(ex, v):
+    if isinstance(v, Node) and "discr" in v.kids:
+        d = z3.simplify(ex.read_node(v.kids["discr"]))
+        if z3.is_bv_value(d):
+            names = R.source_tables()["enums"].get("Error", [])
+            return names[d.as_long()] if d.as_long() < len(names) else "?"
+    return "?"
+
+
+def _deep_text(ex, v, depth=0):
+    v = MM.value_of(ex, v) if v is not None else v
+    if isinstance(v, Node):
+        inner = " ".join(_deep_text(ex, k, depth + 1) for kk, k in v.kids.items() if depth < 8 and not (isinstance(kk, tuple) and kk[0] == "name"))
+        if isinstance(v.variant, tuple) and v.variant and v.variant[0] == "arc":
+            inner += " " + _deep_text(ex, v.kids["ptr"].val.node.kids["v"], depth + 1)
+        return (str(to_term(v.val)) if v.val is not None and not isinstance(v.val, Ptr) else "") + " " + inner
+    return str(to_term(v)) if v is not None else ""
+
+
 def obligations(tier, seed):
     core = R.bodies("core")
     out = []
@@ -163,4 +283,12 @@ def obligations(tier, seed):
             if r["key"] in seen:
                 r["status"] = "violated-duplicate"
             seen.add(r["key"])
+    b, viol, reach, bad = _read_error(core)
+    if bad or not all(reach.values()):
+        out.append(R.Result(engine="mirsym", name="kernel:ErrorFromBack::read_error", kind="kernel", status="unsupported" if bad else "vacuous", detail=str(bad[:1] or {k: len(v) for k, v in reach.items()})[:300], bodies=[b.name]))
+    else:
+        out.append(R.decide("kernel:ErrorFromBack::read_error:cause-not-consumed", "kernel", z3.Or(*viol) if viol else z3.BoolVal(False), [z3.Or(*v) for v in reach.values()], bodies=[b.name],
+                            desc="reading the disconnect cause returns RestartNeeded(that cause) and leaves it stored, so every outstanding and later call, and every on_disconnect(), "
+                                 "gets the cause - never the 'cause unknown' placeholder - once it was recorded", bounds="cause recorded / not recorded", keydetail="cause-consumed",
+                            replay=dict(scenario="c09_cause_for_everyone", vars={}, fixed={}, region=z3.BoolVal(True))))
     return out
